@@ -1,12 +1,12 @@
 SPECIFICATION Spec
 CONSTANTS
  L = 3
- History <- H43
+ History <- HRingChain
  Grid <- Grid3
  Bundle <- Bundle6
  MaxIter = 5
- MaxReject = 3
- Force = FALSE
+ MaxReject <- Unlimited
+ Force = TRUE
  Dev <- NoDev
 INVARIANT StepOne
 INVARIANT InBox
